@@ -20,9 +20,9 @@ def build_ir_rules(w):
     w.enum('Mult', QLT, 'Multiplicity', ordered=True)
     w.rec('MI', [('own', 'Mult'), ('disjoint_union', 'bool'), ('fresh_free_object', 'bool')], INFCTX, 'MultiplicityInfo')
     w.refclass('IrExpr', {'value': 'str'}); w.hierarchies['IrExpr'] = IRAST
-    w.refclass('IrSet', {'expr': 'IrExpr'})
+    w.refclass('IrSet', {'expr': 'IrExpr', 'path_id': 'Obj'})
     w.refclass('Sort', {'expr': 'IrSet'})
-    w.refclass('SelectStmt', {'iterator_stmt': 'Opt[IrSet]', 'limit': 'Opt[IrSet]', 'offset': 'Opt[IrSet]', 'orderby': 'Opt[Seq[Sort]]', 'card_inference_override': 'Opt[IrSet]'})
+    w.refclass('SelectStmt', {'result': 'IrSet', 'iterator_stmt': 'Opt[IrSet]', 'limit': 'Opt[IrSet]', 'offset': 'Opt[IrSet]', 'orderby': 'Opt[Seq[Sort]]', 'card_inference_override': 'Opt[IrSet]'})
     # ---- SELECT tail: LIMIT / OFFSET / FOR  (ghost: n0 body size, lim / off the run-time values, m iterations, x per-iteration size, ov override size)
     G = {'n0': 'int', 'lim': 'int', 'off': 'int', 'm': 'int', 'ov': 'int', 'ir__iter': 'Opt[IrSet]', 'ir__ovr': 'Opt[IrSet]'}
     w.ext_funcs['infer_cardinality'] = dict(params={'ir': 'Obj'}, optional=('scope_tree', 'ctx', 'is_mutation'), returns='Card', ghost={'m': 'int', 'ov': 'int'},
@@ -87,6 +87,50 @@ def build_ir_rules(w):
                        invariant=['len(mult) == i and len(cards) == i', 'forall(0, i, lambda k: gM(mus[k], mult[k].own) and known(cards[k]) and in_gamma(ncs[k], cards[k]))'])},
         hints={'var_types': {'mult': 'Seq[MI]', 'cards': 'Seq[Card]'}})
     return w
+
+def build_disjointness(w):
+    """duplicate-freedom across iterations: multiplicity._infer_for_multiplicity and the std::UNION rule.
+
+    Meaning of a MultiplicityInfo r returned for expression e under ctx (taken from the comments in inference/context.py and from the
+    places that set the flags):   r.own in {UNIQUE, EMPTY} => UNIQ(e): e is duplicate-free in every environment;   r.own == EMPTY =>
+    e is always empty;   r.disjoint_union => DISJ(e, ctx.distinct_iterator): the results of e for different values of the tracked
+    iterator are pairwise disjoint (nothing is claimed when no iterator is tracked);   r.fresh_free_object => FRESH(e): every
+    evaluation yields values that occur nowhere else.  UNIQ / DISJ / FRESH are uninterpreted; the set semantics of FOR and UNION
+    enter as hypotheses (SEM_*), the recursive inference of sub-expressions is the induction hypothesis."""
+    w.rec('ICtx', [('env', 'Obj'), ('inferred_cardinality', 'Obj'), ('inferred_multiplicity', 'Obj'), ('singletons', 'Obj'),
+                   ('distinct_iterator', 'Opt[Obj]'), ('ignore_computed_cards', 'bool'), ('make_updates', 'bool')], INFCTX, 'InfCtx')
+    for nm, a in (('UNIQ', ['IrSet']), ('EMPTYS', ['IrSet']), ('FRESH', ['IrSet']), ('DISJ', ['IrSet', 'Opt[Obj]']),
+                  ('UNIQ_ST', ['SelectStmt']), ('EMPTY_ST', ['SelectStmt']), ('FRESH_ST', ['SelectStmt']), ('DISJ_ST', ['SelectStmt', 'Opt[Obj]'])):
+        w.ufunc(nm, a, 'bool')
+    w.trusted.append('multiplicity flags are read as: own in {UNIQUE, EMPTY} => duplicate-free in every environment; disjoint_union => results for different values '
+                     'of ctx.distinct_iterator are pairwise disjoint; fresh_free_object => every evaluation yields values occurring nowhere else (UNIQ / DISJ / FRESH uninterpreted)')
+    w.trusted.append('set semantics of FOR (SEM_FOR*): the result is the multiset union of the body over the iterator values; hence duplicate-free if iterator and body are '
+                     'and the body is disjoint across iterator values, or the body is fresh, or the body is an INSERT; always empty if iterator or body is')
+    IH = dict(params={'ir': 'IrSet', 'ctx': 'ICtx'}, optional=('scope_tree',), returns='MI',
+              ensures=['result.own != Mult.UNKNOWN',
+                       'implies(result.own == Mult.UNIQUE or result.own == Mult.EMPTY, UNIQ(ir))', 'implies(result.own == Mult.EMPTY, EMPTYS(ir))',
+                       'implies(result.disjoint_union, DISJ(ir, ctx.distinct_iterator))', 'implies(result.fresh_free_object, FRESH(ir))'],
+              raises={'QueryError': {}})
+    IT = 'some(ir.iterator_stmt)'
+    SEM_FOR = ['not is_none(ir.iterator_stmt)',
+               'implies(UNIQ(%s) and UNIQ(ir.result) and DISJ(ir.result, %s.path_id), UNIQ_ST(ir))' % (IT, IT),
+               'implies(FRESH(ir.result) and UNIQ(ir.result), UNIQ_ST(ir))', 'implies(FRESH(ir.result), FRESH_ST(ir) and DISJ_ST(ir, ctx.distinct_iterator))',
+               'implies(isinstance(ir.result.expr, irast.InsertStmt), UNIQ_ST(ir))',
+               'implies(EMPTYS(ir.result) or EMPTYS(%s), UNIQ_ST(ir) and EMPTY_ST(ir))' % IT,
+               'DISJ_ST(ir, None)']                      # nothing is claimed when no iterator is tracked
+    # recorded finding C06-KF1: a FOR that does not track its own iterator (an enclosing FOR does) trusts the disjoint_union flag of its
+    # body, which then speaks about some other iterator -- carved out by its exact outcome class
+    KFA = '(not is_none(ctx.distinct_iterator) and result.disjoint_union and not result.fresh_free_object)'
+    w.contract(MULT, '_infer_for_multiplicity', params={'ir': 'SelectStmt', 'scope_tree': 'Obj', 'ctx': 'ICtx'}, returns='MI',
+        requires=SEM_FOR,
+        ensures=['result.own != Mult.UNKNOWN',
+                 'implies((result.own == Mult.UNIQUE or result.own == Mult.EMPTY) and not %s, UNIQ_ST(ir))' % KFA,
+                 'implies(result.own == Mult.EMPTY and not %s, EMPTY_ST(ir))' % KFA,
+                 'implies(result.disjoint_union and not %s, DISJ_ST(ir, ctx.distinct_iterator))' % KFA,
+                 'implies(result.fresh_free_object, FRESH_ST(ir))'],
+        raises={'QueryError': {}, 'AssertionError': dict(only_if='False')},
+        hints={'ext_funcs': {'infer_multiplicity': IH}})
+    w._kfa = KFA
 
 def build():
     w = World('C06')
@@ -198,6 +242,7 @@ def build():
                           'sumn(ns, i) >= 0', 'sumn(ns, 0) == 0', 'implies(int(acc) < 2, sumn(ns, i) <= int(acc))'])})
 
     build_ir_rules(w)
+    build_disjointness(w)
     # ---- what is sent to clients
     w.contract(ENUMS, 'cardinality_from_ir_value', params={'card': 'Card'}, returns='OutCard',
                requires=['known(card)'],
